@@ -1279,7 +1279,7 @@ pub fn gen(ctx: &Ctx, emit: &mut dyn FnMut(String)) {
     }
     tuples.push((4, 4, -1, 3));
     tuples.push((2, 2, -100, 127));
-    let extra = ctx.n(4, 120);
+    let extra = ctx.n(4, 40);
     for _ in 0..extra {
         let (lb, lr) = gen_base_range(&mut rng);
         tuples.push((*rng.pick(&[1u64, 2, 4]), *rng.pick(&[1u64, 2, 4]), lb, lr));
@@ -1303,8 +1303,8 @@ pub fn gen(ctx: &Ctx, emit: &mut dyn FnMut(String)) {
         for lb in lbs {
             let mil = *rng.pick(&[1u64, 2, 4]);
             let mo = *rng.pick(&[1u64, 2, 4]);
-            let span = if lr <= 127 { ctx.n(40, 300) as i64 } else { ctx.n(130, 300) as i64 };
-            let oa_hi = ctx.n(2 * 260 / lr as usize + 8, 600);
+            let span = if lr <= 127 { ctx.n(40, 150) as i64 } else { ctx.n(130, 150) as i64 };
+            let oa_hi = ctx.n(2 * 260 / lr as usize + 8, (4 * 260 / lr as usize + 40).min(600));
             emit(format!("blk-wline @MODE@ 4 {mil} {mo} {lb} {lr} -{span} {span} 0 {oa_hi}"));
         }
     }
